@@ -62,8 +62,8 @@ CLAIMED['C07'] = dict(
          'track, and raises nothing but ValueError or struct.error. The saved bytes are compared byte for byte with the real save(), and the model reader '
          'with the real reader on saved and mutated files.',
     note='Coq kernel; no axioms; text codecs are a parameter with the hypothesis "decodes what it encodes" (latin-1 and ASCII are concrete instances); the '
-         'load-save-load fixed-point clause is checked on the implementation for every byte string that loads (oracle) but is not yet a theorem about '
-         'arbitrary bytes; unstorable times are judged after end_of_track folding.',
+         'load-save-load clause is theorem C07_fixed_point for ANY byte string that loads (hypothesis sysex_room = the known finding sysex-at-limit) and is also '
+         'checked on the implementation for every string that loads; unstorable times are judged after end_of_track folding.',
     technique='Coq proof (invariant + induction over events, tracks, files) + byte-exact model/implementation correspondence', design='5/C07')
 CLAIMED['C09'] = dict(
     text='Theorems over the model of meta.py: every accepted value of the 17 known meta types and of unknown meta types encodes to FF type <length> payload '
